@@ -391,3 +391,56 @@ func FuzzCase[C any](t *testing.T, sub string, c C, run func(C) Result) {
 		t.Fatalf("VERIF-VIOLATION property=%s sub=%s sig=%s replay=%s\nVERIF-DETAIL %s", S.ID, sub, res.Sig, path, res.Violation)
 	}
 }
+
+// RaceMark returns the current size of this process's race report file
+// (GORACE log_path); RaceSince returns what the detector reported since then.
+func RaceMark() int64 {
+	n, _ := raceLog()
+	return n
+}
+
+func raceLog() (int64, string) {
+	for _, kv := range strings.Fields(os.Getenv("GORACE")) {
+		if strings.HasPrefix(kv, "log_path=") {
+			p := fmt.Sprintf("%s.%d", strings.TrimPrefix(kv, "log_path="), os.Getpid())
+			if fi, err := os.Stat(p); err == nil {
+				return fi.Size(), p
+			}
+			return 0, p
+		}
+	}
+	return 0, ""
+}
+
+// RaceSince returns the race reports written since mark ("" if none). Only
+// meaningful in a -race build started by the driver.
+func RaceSince(mark int64) string {
+	n, p := raceLog()
+	if p == "" || n <= mark {
+		return ""
+	}
+	b, err := os.ReadFile(p)
+	if err != nil || int64(len(b)) < mark {
+		return ""
+	}
+	return string(b[mark:])
+}
+
+// RaceResult turns a race report into a violation (library frame involved)
+// or an inconclusive result (harness-only race).
+func RaceResult(res Result, id string, rep string) Result {
+	if rep == "" {
+		return res
+	}
+	if strings.Contains(rep, "jeroenrinzema/psql-wire") {
+		first := rep
+		if len(first) > 2500 {
+			first = first[:2500]
+		}
+		res.Sig, res.Violation = id+"/data-race", "the race detector reports unsynchronised access inside the library:\n"+first
+		res.Detail = map[string]any{"race_report": rep}
+		return res
+	}
+	res.Inconclusive = "race report without a psql-wire frame (harness race?): " + rep[:min(len(rep), 600)]
+	return res
+}
